@@ -238,8 +238,8 @@ impl Prop for C03 {
             Ok(r) => r,
             Err(why) => return fw::fail(sig("results"), format!("{q}: {why}")),
         };
-        if let Res::Err { msg, .. } = &got {
-            if msg.contains("is not a valid unit") {
+        if let Res::Err { .. } = &got {
+            if obs::rejected_unit_word(env.db(), q).is_some() {
                 return Verdict::DontCare("unit word rejected by the tool");
             }
         }
